@@ -266,13 +266,15 @@ void explore_c05() {
     c05_reentrant_part();
     shm->validated = trans;
     sx::detail(fmt("breadth-first search to fixpoint per signature (void with up to 3 live observers; int, const std::string&, (std::string,int) with up to %d), 3 handle slots, ids rank-normalised in the state key; "
-                   "plus notify calls made from inside callbacks (1 observer x <= 3 actions, 2 x <= 2, 3 x <= 1 per callback, two rounds): every such call, too, must reach exactly the observers that are subscribed, valid and unmuted when it is made, once each, in order", maxobs));
+                   "plus notify calls made from inside callbacks (1 observer x <= 3 actions, 2 x <= 2, 3 x <= 1 per callback, two rounds): every such call, too, must reach exactly the observers that are subscribed, valid and unmuted when it is made, once each, in order; "
+                   "plus 1..%d observers at a time with one of them (first, middle, last) unsubscribed / muted / invalidated / muted and unmuted from outside, or acting from inside its callback, two rounds", maxobs, thorough() ? 70 : 40));
 }
 
 void replay_c10(const std::string &hist);
 void replay_c05(const std::string &hist) {
     char sig[64]; int maxobs;
     if (hist.compare(0, 10, "reentrant ") == 0) { g_delivery_only = true; replay_c10(hist); return; }
+    if (hist.compare(0, 5, "wide ") == 0) { violation("wide:delivery", "see the first report (the history names the configuration: <total> observers, the operation applied to <target>, two notify rounds)", hist); return; }
     if (sscanf(hist.c_str(), "sig=%63s maxobs=%d :", sig, &maxobs) != 2) { violation("replay:parse", "cannot parse " + hist); return; }
     std::vector<Op> h;
     if (!parse_ops(hist.substr(hist.find(':') + 1), h)) { violation("replay:parse", "cannot parse ops in " + hist); return; }
@@ -383,11 +385,11 @@ void run_config(int n, unsigned mutemask, const std::vector<Script> &scripts) {
     RSys sys; sys.subject = std::make_unique<Subject<int>>(); sys.scripts = scripts;
     sys.handles.reserve(4096); sys.destroyed.reserve(4096);
     for (int i = 0; i < n; i++) sys.subscribe_new();
-    for (int i = 0; i < n; i++) if (mutemask >> i & 1) sys.handles[i].mute();
+    for (int i = 0; i < n && i < 32; i++) if (mutemask >> i & 1) sys.handles[i].mute();
     sys.do_notify(1);
     sys.do_notify(2);
     RefSim ref; ref.scripts = scripts; ref.obs.resize(n); ref.log = &sys.log;
-    for (int i = 0; i < n; i++) ref.obs[i].muted = mutemask >> i & 1;
+    for (int i = 0; i < n && i < 32; i++) ref.obs[i].muted = mutemask >> i & 1;
     ref.round(); if (ref.err.empty()) ref.round();
     if (ref.err.empty() && ref.pos != sys.log.size()) ref.err = fmt("the implementation made %zu calls, the rounds as defined by the property explain only the first %zu", sys.log.size(), ref.pos);
     if (!ref.err.empty()) {
@@ -452,8 +454,29 @@ void explore_c10() {
             }
         });
     }
+    // The same with MANY observers: the active ones (2 observers x <= 2 actions) surrounded by observers that only count their calls.  Whatever an implementation does
+    // differently above some size (an inline buffer, a reused overflow vector, a different container) is exercised on both sides of it and while crossing it.
+    std::vector<int> totals;
+    for (int t = 3; t <= 70; t++) if (thorough() || t <= 10 || (t >= 15 && t <= 19) || (t >= 31 && t <= 35) || (t >= 63 && t <= 67)) totals.push_back(t);
+    {
+        const int n = 2; auto opts = scripts_upto(n, 2);
+        for (int total : totals) for (int pos = 0; pos < 3; pos++) tasks.push_back([=] {
+            int pads = total - n, before = pos == 0 ? 0 : pos == 1 ? pads : pads / 2;
+            for (size_t a = 0; a < opts.size(); a++) for (size_t b = 0; b < opts.size(); b++) {
+                bool reentrant = false; for (auto *sc : {&opts[a], &opts[b]}) for (auto &x : *sc) reentrant |= x.act == A_NOTIFY;
+                if (!reentrant && !thorough()) continue;          // without a nested notify the rounds do not overlap
+                std::vector<Script> scripts(before);
+                for (size_t k : {a, b}) { Script sc = opts[k]; for (auto &x : sc) x.target += before; scripts.push_back(sc); }
+                if (deadline_passed()) { shm->exhaustive = 0; return; }
+                mark(cfg_str(total, 0, scripts));
+                run_config(total, 0, scripts);
+                shm->evaluations++; shm->transitions += 2; shm->states++; shm->nontrivial++;
+            }
+        });
+    }
     parallel(tasks);
     shm->validated = shm->evaluations;
+    sx::detail(fmt("the 2 observers x <= 2 actions configurations%s again among %d..%d observers in total (the others only count their calls; before, after and around the active ones; totals %s)", thorough() ? "" : " that contain a nested notify", totals.front(), totals.back(), thorough() ? "all" : "3..10, 15..19, 31..35, 63..67"));
     sx::detail("every assignment of an action LIST per callback (actions: subscribe a new observer, nested notify up to depth 2, unsubscribe/mute/unmute/invalidate any target incl. itself; performed in order on every invocation) for the shapes " + shape_txt +
                "; two consecutive rounds each, every initial mute mask where unmute is used; observer objects must be destroyed exactly when they leave; states = configurations, transitions = rounds");
 }
@@ -480,6 +503,41 @@ void c05_reentrant_part() {
                 }
                 int i = 0; while (i < n && ++idx[i] == opts.size()) idx[i++] = 0;
                 if (i >= n) break;
+            }
+        }
+        // many observers: whatever the implementation does differently above some size is on both sides of it here
+        for (int total = 1; total <= (thorough() ? 70 : 40); total++) {
+            std::vector<int> spots{0, total / 2, total - 1}; std::sort(spots.begin(), spots.end()); spots.erase(std::unique(spots.begin(), spots.end()), spots.end());
+            // (a) operations from outside, then two rounds
+            for (int t : spots) for (int op = 0; op < 5; op++) {
+                if (deadline_passed()) { shm->exhaustive = 0; _exit(0); }
+                std::string hist = fmt("wide total=%d target=%d op=%d", total, t, op); mark(hist);
+                RSys sys; sys.subject = std::make_unique<Subject<int>>(); sys.handles.reserve(4096); sys.destroyed.reserve(4096);
+                for (int i = 0; i < total; i++) sys.subscribe_new();
+                bool gets = false;
+                switch (op) { case 0: sys.handles[t].unsubscribe(); break; case 1: sys.handles[t].mute(); break; case 2: sys.handles[t].getObserver()->invalidate(); break;
+                              case 3: sys.handles[t].mute(); sys.handles[t].unmute(); gets = true; break; case 4: gets = true; break; }
+                sys.do_notify(1); if (op == 4) { sys.subscribe_new(); } sys.do_notify(2);
+                std::string want, got;
+                for (int r = 1; r <= 2; r++) for (int i = 0; i < total + (op == 4 && r == 2); i++) if (i != t || gets) want += fmt("%d/r%d ", i, r);
+                for (auto &c : sys.log) got += fmt("%d/r%d ", c.first, c.round);
+                if (want != got) violation("wide:delivery", fmt("%d observers, observer %d %s before the rounds: calls (observer/round) %s, expected %s", total, t, op == 0 ? "unsubscribed" : op == 1 ? "muted" : op == 2 ? "invalidated" : op == 3 ? "muted and unmuted" : "left alone (one more subscribed between the rounds)", got.c_str(), want.c_str()), hist);
+                shm->evaluations++; shm->transitions += 2; shm->nontrivial++;
+                sys.subject.reset();
+            }
+            // (b) one acting observer among them
+            if (total < 3) continue;
+            for (int q : spots) {
+                std::vector<Action> m{{A_SUBNEW, 0}, {A_NOTIFY, 0}};
+                for (int t : spots) for (int a : {A_UNSUB, A_MUTE, A_INVAL}) m.push_back(Action{a, t});
+                std::vector<Script> opts{{}}; for (auto &a : m) opts.push_back({a}); if (total % 8 <= 1 || thorough()) for (auto &a : m) for (auto &b : m) opts.push_back({a, b});
+                for (auto &sc : opts) {
+                    if (deadline_passed()) { shm->exhaustive = 0; _exit(0); }
+                    std::vector<Script> scripts(q); scripts.push_back(sc);
+                    mark(cfg_str(total, 0, scripts));
+                    run_config(total, 0, scripts);
+                    shm->evaluations++; shm->transitions += 2; shm->nontrivial++;
+                }
             }
         }
         _exit(0);
